@@ -2711,6 +2711,8 @@ impl DcpsDomainParticipant {
                     .map(|m| m.key.value)
                     .collect();
                 for key in removed_writer_guids {
+                    // updates the matched list, the status and the status condition
+                    data_reader.remove_matched_publication(&InstanceHandle::new(key));
                     data_reader
                         .transport_reader
                         .delete_matched_writer(key.into());
@@ -2720,20 +2722,34 @@ impl DcpsDomainParticipant {
 
         for publisher in &mut self.domain_participant.user_defined_publisher_list {
             for data_writer in &mut publisher.data_writer_list {
-                for matched_subscription in &data_writer.matched_subscription_list {
-                    if matched_subscription.key.value[..12] == prefix {
-                        // Remove readers
-                        data_writer
-                            .writer
-                            .transport_writer
-                            .delete_matched_reader(matched_subscription.key.value.into());
-                    }
-                }
-                data_writer
+                let removed_reader_guids: Vec<_> = data_writer
                     .matched_subscription_list
-                    .retain(|subscription| subscription.key.value[..12] != prefix);
+                    .iter()
+                    .filter(|m| m.key.value[..12] == prefix)
+                    .map(|m| m.key.value)
+                    .collect();
+                for key in removed_reader_guids {
+                    // updates the matched list and the status
+                    data_writer.remove_matched_subscription(&InstanceHandle::new(key));
+                    data_writer
+                        .writer
+                        .transport_writer
+                        .delete_matched_reader(key.into());
+                    data_writer
+                        .status_condition
+                        .add_communication_state(StatusKind::PublicationMatched);
+                }
             }
         }
+
+        // The endpoints of the departed participant must not be matched again by the next
+        // process_discovered_readers / process_discovered_writers pass
+        self.domain_participant
+            .discovered_reader_list
+            .retain(|r| r.dds_subscription_data.key().value[..12] != prefix);
+        self.domain_participant
+            .discovered_writer_list
+            .retain(|w| w.dds_publication_data.key().value[..12] != prefix);
 
         self.remove_matched_publications_detector(prefix);
         self.remove_matched_publications_announcer(prefix);
